@@ -136,6 +136,8 @@ type world struct {
 	sbyt       datamodel.Node
 	backend    string
 	cleanup    func()
+	namedSel   selector.Selector // a shared compiled selector naming fields and a range, not in sorted order
+	namedRoot  datamodel.Node
 }
 
 // failingWriter fails its n-th Write (a consumer's writer is the consumer's own; encoding a shared node into it is a read of the node).
@@ -288,6 +290,25 @@ func buildWorld(t *sim.Tape) *world {
 			})
 		}
 	}()
+	func() {
+		defer func() { recover() }()
+		w.namedRoot, _ = qp.BuildMap(basicnode.Prototype.Any, -1, func(ma datamodel.MapAssembler) {
+			qp.MapEntry(ma, "zz", qp.Int(1))
+			qp.MapEntry(ma, "list", qp.List(-1, func(la datamodel.ListAssembler) {
+				for i := 0; i < 14; i++ {
+					qp.ListEntry(la, qp.Int(int64(100+i)))
+				}
+			}))
+			qp.MapEntry(ma, "a", qp.Int(2))
+			qp.MapEntry(ma, "m", qp.Int(3))
+		})
+		w.namedSel, _ = ssb.ExploreFields(func(ef builder.ExploreFieldsSpecBuilder) {
+			ef.Insert("zz", ssb.Matcher())
+			ef.Insert("list", ssb.ExploreRange(8, 12, ssb.Matcher()))
+			ef.Insert("m", ssb.Matcher())
+			ef.Insert("a", ssb.Matcher())
+		}).Selector()
+	}()
 	w.skMap = bindnode.Wrap(&SKMap{Keys: []SKey{{"a", "b"}, {"c", "d"}, {"e", "f"}}, Values: map[SKey]int64{{"a", "b"}: 11, {"c", "d"}: 35, {"e", "f"}: -2}}, w.ts.TypeByName("SKMap")).(schema.TypedNode)
 	w.sbytBad = basicnode.NewBytesFromReader(&noSeekEnd{r: bytes.NewReader([]byte("a stream that can be read and rewound but not measured"))})
 	w.byt = basicnode.NewBytes([]byte("shared plain bytes node, long enough for subsets"))
@@ -319,11 +340,11 @@ func avHash(n datamodel.Node) string {
 	return fmt.Sprintf("%x", v.Hash())
 }
 
-const nOps = 45
+const nOps = 48
 
 var opNames = []string{"read-basicnode", "read-bindnode-type", "read-bindnode-repr", "deepequal", "copy", "encode-dagcbor", "encode-dagjson", "encode-bindnode-repr",
 	"computelink", "load", "loadraw", "walkadv", "walkmatching", "get-path", "build-from-shared-prototype", "wrap-with-shared-type", "wrap-inferred", "registry-lookup",
-	"print", "read-gendemo", "build-gendemo", "compile-selector", "typesystem-read", "prototype-inferred", "encode-to-failing-writer", "encode-after-failed-encode", "decode-dagcbor", "decode-dagjson-into-shared-prototype", "focused-transform-of-shared-node", "walk-transform-of-shared-node", "loadplusraw", "fill", "walk-stream-bytes-subset", "read-stream-backed-bytes", "read-vocabulary-node", "walk-with-seeded-selector", "subset-of-stream-that-cannot-seek-to-its-end", "load-raw-codec-block-and-read-it-later", "read-shared-subset-match-node", "new-default-linksystem", "select-links", "load-schema-dsl", "fluent-qp-build", "read-copy-of-stream-backed-bytes", "lookup-in-struct-keyed-map"}
+	"print", "read-gendemo", "build-gendemo", "compile-selector", "typesystem-read", "prototype-inferred", "encode-to-failing-writer", "encode-after-failed-encode", "decode-dagcbor", "decode-dagjson-into-shared-prototype", "focused-transform-of-shared-node", "walk-transform-of-shared-node", "loadplusraw", "fill", "walk-stream-bytes-subset", "read-stream-backed-bytes", "read-vocabulary-node", "walk-with-seeded-selector", "subset-of-stream-that-cannot-seek-to-its-end", "load-raw-codec-block-and-read-it-later", "read-shared-subset-match-node", "new-default-linksystem", "select-links", "load-schema-dsl", "fluent-qp-build", "read-copy-of-stream-backed-bytes", "lookup-in-struct-keyed-map", "walk-transform-with-shared-selector-naming-children", "walk-with-shared-selector-naming-children", "prototype-with-go-type-inferred-from-schema"}
 
 // doOp performs one read-only operation on the shared world and returns a digest of its result.
 func (w *world) doOp(op, arg int) string {
@@ -666,6 +687,56 @@ func (w *world) doOp(op, arg int) string {
 		}
 		b, err := w.sbytCopy.AsBytes()
 		return fmt.Sprintf("%x %v", sim.HashString(string(b)), err)
+	case 45, 46:
+		// one compiled selector that names fields and a range of indices (not in sorted order) is shared by
+		// transforming walks (45) and read-only walks (46): the order of visits is the selector's
+		if w.namedSel == nil || w.namedRoot == nil {
+			return "none"
+		}
+		var sb strings.Builder
+		if op == 45 {
+			res, err := traversal.Progress{Cfg: w.cfg}.WalkTransforming(w.namedRoot, w.namedSel, func(p traversal.Progress, n datamodel.Node) (datamodel.Node, error) {
+				sb.WriteString(p.Path.String() + ";")
+				if arg%2 == 0 {
+					return n, nil
+				}
+				return basicnode.NewInt(int64(arg)), nil
+			})
+			if err != nil {
+				return "ERR:" + err.Error()
+			}
+			return sb.String() + avHash(res) + avHash(w.namedRoot)
+		}
+		err := traversal.Progress{Cfg: w.cfg}.WalkAdv(w.namedRoot, w.namedSel, func(p traversal.Progress, n datamodel.Node, _ traversal.VisitReason) error {
+			sb.WriteString(p.Path.String() + "=" + avHash(n) + ";")
+			return nil
+		})
+		return fmt.Sprintf("%s %v", sb.String(), err != nil)
+	case 47:
+		// the Go type is inferred from the schema type (no Go type given): every caller gets a working prototype
+		names := []string{"Person", "Point", "Animal", "SKMap"}
+		out := ""
+		var p schema.TypedPrototype
+		var typ schema.Type
+		for k := range names {
+			typ = w.ts.TypeByName(names[(arg+k)%len(names)])
+			if typ == nil {
+				return "none"
+			}
+			p = bindnode.Prototype(nil, typ)
+			out += fmt.Sprintf("%s %v ", typ.Name(), p.Type() == typ)
+		}
+		if typ.Name() == "Point" {
+			n, err := qp.BuildMap(p, -1, func(ma datamodel.MapAssembler) {
+				qp.MapEntry(ma, "X", qp.Int(int64(arg)))
+				qp.MapEntry(ma, "Y", qp.Int(-1))
+			})
+			if err != nil {
+				return out + " ERR:" + err.Error()
+			}
+			out += " " + avHash(n)
+		}
+		return out
 	case 44:
 		// keyed lookups in a shared reflection-bound map whose keys are structs (stringjoin representation)
 		keys := []string{"a:b", "c:d", "e:f", "nope:nope"}
